@@ -1151,6 +1151,11 @@ pub fn wal_path(options: &DbOptions, n: u64) -> std::path::PathBuf {
     crate::file_names::FileNameHandler::new(options.db_path().to_string()).get_wal_file_path(n)
 }
 
+/// Sequence number a snapshot was taken at.
+pub fn snapshot_sequence(snapshot: &crate::Snapshot) -> u64 {
+    snapshot.sequence_number()
+}
+
 /// Path of manifest `n` of the database described by `options`.
 pub fn manifest_path(options: &DbOptions, n: u64) -> std::path::PathBuf {
     crate::file_names::FileNameHandler::new(options.db_path().to_string()).get_manifest_file_path(n)
